@@ -115,9 +115,8 @@ Proof.
 Qed.
 Lemma model_ok_ext w w' x : ext w w' -> model_ok w x -> model_ok w' x.
 Proof.
-  intros (E1 & _) (A & B & C). split; [lia|]. split.
-  - intros k e IN. specialize (B k e IN). lia.
-  - intros k l e IN INe. specialize (C k l e IN INe). lia.
+  intros (E1 & _) (A & C). split; [lia|].
+  intros k l e IN INe. specialize (C k l e IN INe). lia.
 Qed.
 
 Lemma ext_wset w i n : ext w (wset w i n). Proof. unfold ext, wset. cbn. repeat split; lia. Qed.
@@ -161,10 +160,9 @@ Qed.
 
 (* model_ok in terms of vals_ok *)
 Lemma model_ok_iff w x : model_ok w x <->
-  m_root x < w_next w /\ vals_ok (fun e => e < w_next w) (m_idents x) /\
-  vals_ok (fun l => Forall (fun e => e < w_next w) l) (m_origins x).
+  m_root x < w_next w /\ vals_ok (fun l => Forall (fun e => e < w_next w) l) (m_origins x).
 Proof.
-  unfold model_ok, vals_ok. split; intros (A & B & C); (split; [exact A|]); (split; [exact B|]).
+  unfold model_ok, vals_ok. split; intros (A & C); (split; [exact A|]).
   - intros k l IN. rewrite Forall_forall. intros e INe. eapply C; eauto.
   - intros k l e IN INe. specialize (C k l IN). rewrite Forall_forall in C. auto.
 Qed.
